@@ -1116,6 +1116,135 @@ Section Proofs.
       apply miss_visible_monotone; auto. unfold visible. rewrite Ev. reflexivity.
     - apply miss_visible_monotone; auto. destruct HI as [_ HI2]. exact (HI2 pid Ew).
   Qed.
+  (* ---------------------------------------------------------------- *)
+  (* every record the cache holds or shows for a provider is one of the records a source
+     reported FOR THAT PROVIDER in the history: the cache never fabricates a record     *)
+
+  Lemma entry_after_prov seq' rs : forall oe e r,
+    entry_after seq' oe rs = Some e -> e_prov e = Some r ->
+    In r rs \/ exists e0, oe = Some e0 /\ e_prov e0 = Some r.
+  Proof.
+    induction rs as [|x rs IH]; intros oe e r He Hp.
+    - rewrite entry_after_nil in He. right. eauto.
+    - rewrite entry_after_cons in He. destruct (IH _ _ _ He Hp) as [Hin|(e0 & E0 & P0)].
+      + left. right. exact Hin.
+      + injection E0 as <-. unfold apply_entry in P0. destruct oe as [e1|]; cbn in P0.
+        * destruct (e_last e1 <? eff_time x)%Z; cbn in P0.
+          -- injection P0 as <-. left. left. reflexivity.
+          -- right. eauto.
+        * injection P0 as <-. left. left. reflexivity.
+  Qed.
+
+  Lemma fetch_fold_in outs : forall acc r,
+    (fold_left fetch_fold outs acc).2 = Some r -> acc.2 = Some r \/ In (Found r) outs.
+  Proof.
+    induction outs as [|o outs IH]; intros acc r H; [left; exact H|].
+    cbn [fold_left] in H. destruct (IH _ _ H) as [Ha|Hin]; [|right; right; exact Hin].
+    destruct o as [x| |]; cbn [fetch_fold] in Ha; auto.
+    destruct (acc.1 <? eff_time x)%Z; cbn in Ha; [injection Ha as <-; right; left; reflexivity|auto].
+  Qed.
+
+  (* what the sources said about [pid] in one op *)
+  Definition op_reports (o : op) (pid : N) (r : rec) : Prop :=
+    match o with
+    | ORefresh _ outs => In r (wreps pid outs)
+    | OGet _ q outs => q = pid /\ In (Found r) outs
+    | OWait => False
+    end.
+
+  Definition reported_in (ops : list op) (pid : N) (r : rec) : Prop :=
+    exists o, In o ops /\ op_reports o pid r.
+
+  Definition InvR (R : N -> rec -> Prop) (s : state) : Prop :=
+    (forall pid e r, st_write s !! pid = Some e -> e_prov e = Some r -> R pid r) /\
+    (forall pid r, visible s pid = Some r -> R pid r).
+
+  Lemma InvR_mono (R R' : N -> rec -> Prop) s : (forall p r, R p r -> R' p r) -> InvR R s -> InvR R' s.
+  Proof. intros H [A B]. split; eauto. Qed.
+
+  Lemma InvR_step R s o :
+    Inv s -> wf_op o -> InvR R s ->
+    InvR (fun p r => R p r \/ op_reports o p r) (step s o).1.
+  Proof.
+    intros HI Hwf [HW HV].
+    destruct o as [now outs|now q outs|]; cbn [C06_PCache.step wf_op op_reports] in *.
+    - rewrite refresh_unfold.
+      destruct (walk (st_seq s + 1) outs (st_write s) 0) as [[w1 b] c] eqn:Hw.
+      destruct (walk_spec _ _ _ _ _ _ _ Hw) as (Hl & _ & _).
+      assert (Hw1 : forall pid e r, w1 !! pid = Some e -> e_prov e = Some r -> R pid r \/ In r (wreps pid outs)).
+      { intros pid e r He Hp. rewrite Hl in He.
+        destruct (entry_after_prov _ _ _ _ _ He Hp) as [Hin|(e0 & E0 & P0)]; [right; exact Hin|left; eauto]. }
+      destruct b; cbn [fst].
+      + split; cbn [st_write].
+        * exact Hw1.
+        * intros pid r Hv. left. apply HV. exact Hv.
+      + split.
+        * intros pid e r He Hp.
+          destruct (wreps pid outs) as [|r0 rs0] eqn:Er.
+          -- pose proof (refresh_unseen s now outs w1 c pid HI Hw Er) as H. cbn zeta in H.
+             destruct (st_write s !! pid) as [e0|] eqn:E0; [|destruct H; congruence].
+             left. destruct (e_expires e0) as [x|].
+             ++ destruct (x <? now)%Z; [destruct H; congruence|].
+                destruct H as [H1 _]. rewrite H1 in He. injection He as <-. eauto.
+             ++ destruct H as [H1 _]. rewrite H1 in He. injection He as <-. cbn in Hp. eauto.
+          -- assert (Hne : wreps pid outs <> []) by (rewrite Er; discriminate).
+             destruct (refresh_seen s now outs w1 c pid HI Hwf Hw Hne) as (e1 & He1 & Hw' & _).
+             rewrite Hw' in He. injection He as <-. cbn in Hp.
+             specialize (Hl pid). rewrite He1 in Hl. rewrite <- Er. exact (Hw1 pid e1 r Hl Hp).
+        * intros pid r Hv.
+          destruct (wreps pid outs) as [|r0 rs0] eqn:Er.
+          -- pose proof (refresh_unseen s now outs w1 c pid HI Hw Er) as H. cbn zeta in H.
+             left. apply HV.
+             destruct (st_write s !! pid) as [e0|] eqn:E0; [|destruct H; congruence].
+             destruct (e_expires e0) as [x|].
+             ++ destruct (x <? now)%Z; [destruct H; congruence|]. destruct H as [_ [_ Hk]]. congruence.
+             ++ destruct H as [_ [_ Hk]]. congruence.
+          -- assert (Hne : wreps pid outs <> []) by (rewrite Er; discriminate).
+             destruct (refresh_seen s now outs w1 c pid HI Hwf Hw Hne) as (e1 & He1 & _ & Hview).
+             apply visible_view in Hv. rewrite Hview in Hv. injection Hv as Hp.
+             specialize (Hl pid). rewrite He1 in Hl. rewrite <- Er. exact (Hw1 pid e1 r Hl Hp).
+    - destruct (view s q) as [v|] eqn:Hvq.
+      + rewrite (get_hit _ _ _ _ _ Hvq). split; intros; left; eauto.
+      + destruct (get_miss_spec now q outs s HI Hvq) as (Hwq & Hviewq & _ & Hoth).
+        assert (Hme : forall r, e_prov (miss_entry s now outs) = Some r -> In (Found r) outs).
+        { intros r Hp. unfold C06_PCache.miss_entry in Hp.
+          destruct (fold_left fetch_fold outs ((-1)%Z, None)) as [last prov] eqn:Ef. cbn in Hp. subst prov.
+          destruct (fetch_fold_in outs ((-1)%Z, None) r) as [H|H]; [rewrite Ef; reflexivity|discriminate H|exact H]. }
+        split.
+        * intros pid e r He Hp. destruct (decide (pid = q)) as [->|Hne].
+          -- rewrite Hwq in He. injection He as <-. right. split; [reflexivity|apply Hme, Hp].
+          -- destruct (Hoth pid Hne) as [Hw' _]. rewrite Hw' in He. left. eauto.
+        * intros pid r Hv. destruct (decide (pid = q)) as [->|Hne].
+          -- apply visible_view in Hv. rewrite Hviewq in Hv. injection Hv as Hp.
+             right. split; [reflexivity|apply Hme, Hp].
+          -- destruct (Hoth pid Hne) as [_ [Hvis _]]. rewrite Hvis in Hv. left. eauto.
+    - split; intros; left; eauto.
+  Qed.
+
+  Theorem returned_record_is_a_reported_record_l ops : forall s R,
+    Inv s -> Forall wf_op ops -> InvR R s ->
+    InvR (fun p r => R p r \/ reported_in ops p r) (run ops s).
+  Proof.
+    induction ops as [|o ops IH]; intros s R HI Hwf HR.
+    - cbn. eapply InvR_mono; [|exact HR]. auto.
+    - inversion Hwf; subst. cbn [C06_PCache.run fold_left].
+      eapply InvR_mono; [|apply (IH (step s o).1 (fun p r => R p r \/ op_reports o p r));
+                           [apply Inv_step; assumption|assumption|apply InvR_step; assumption]].
+      intros p r [[H|H]|(o' & Hin & Hrep)]; [left; exact H| |].
+      + right. exists o. split; [left; reflexivity|exact H].
+      + right. exists o'. split; [right; exact Hin|exact Hrep].
+  Qed.
+
+  Corollary visible_record_was_reported ops pid r :
+    Forall wf_op ops -> visible (run ops init) pid = Some r -> reported_in ops pid r.
+  Proof.
+    intros Hwf Hv.
+    destruct (returned_record_is_a_reported_record_l ops init (fun _ _ => False) Inv_init Hwf) as [_ B].
+    - split; [intros p0 e r0 H; cbn in H; rewrite lookup_empty in H; discriminate|].
+      intros p0 r0 H. unfold visible, view, view_of in H. cbn in H.
+      rewrite lookup_union, !lookup_empty in H. discriminate.
+    - destruct (B pid r Hv) as [[]|H]. exact H.
+  Qed.
 End Proofs.
 
 (* ---------------------------------------------------------------- *)
